@@ -7,6 +7,7 @@ inlined; external callees become uninterpreted ``call`` terms (a few numpy/panda
 modelled, see ``MODELS``) and are recorded in an ordered trace.  Nothing is executed.
 """
 import ast
+import os
 from . import terms as T
 from .terms import C, Cdec, NONE, TRUE, FALSE
 from .srcmodel import AnalysisError
@@ -785,7 +786,13 @@ class Frame:
         if m is None:
             self.ctx.opaque.append((f'expression {type(n).__name__}', self.where(n)))
             return ('opaque', ast.unparse(n))
-        return m(n)
+        r = m(n)
+        if T.tsize(r) > TERM_BUDGET:
+            # a value whose normal form explodes (typically an error value threaded through nested loops) is of no use to any rule:
+            # cut it here so that the evaluation ends with a verdict instead of running into the watchdog
+            self.ctx.opaque.append(('term budget exceeded', self.where(n)))
+            return ('opaque', f'term too large at {self.where(n)}')
+        return r
 
     def ex_Constant(self, n):
         return Cdec(n.value)
@@ -1300,6 +1307,9 @@ def _read_before_write(body, targets=()):
                     if x.func.value.id not in written:
                         live.add(x.func.value.id)
     return live
+
+
+TERM_BUDGET = int(os.environ.get('VERIF_TERM_BUDGET', '1000000'))
 
 
 def _boolish(t):
